@@ -47,6 +47,10 @@ fn real_main() -> i32 {
         }
         "laws" => run_engine(&mut caoverif::e_laws::LawsEngine {}, &opts),
         "trace" => run_engine(&mut caoverif::e_trace::TraceEngine {}, &opts),
+        "table" => run_engine(&mut caoverif::e_table::TableEngine {}, &opts),
+        "stdlib" => run_engine(&mut caoverif::e_stdlib::StdlibEngine {}, &opts),
+        "host" => run_engine(&mut caoverif::e_host::HostEngine {}, &opts),
+        "serde" => run_engine(&mut caoverif::e_serde::SerdeEngine {}, &opts),
         other => {
             eprintln!("unknown engine {other}");
             64
